@@ -28,7 +28,16 @@ POOLS = {
     "P": ["watt", "horsepower", "metric horsepower"],
     "Pr": ["pascal", "pounds per square inch"],
     "B": ["bit", "byte", "nibble"],
+    # pure powers of length units whose roots are several declared hops apart, next to named
+    # area / volume units: the implicit conversion inside + - == < walks a multi-hop path
+    "A2": [("yard", 2), ("pica", 2), ("mile", 2), ("inch", 2), "acre", ("hand", 2)],
+    "V3": [("mile", 3), ("inch", 3), ("yard", 3), "liter", ("smoot", 3)],
+    "iL": [("mile", -1), ("inch", -1), ("pica", -1), ("meter", -1)],
 }
+
+
+def _ne(entry):
+    return entry if isinstance(entry, tuple) else (entry, 1)
 PREFIXES = [None, "milli", "kilo", "kibi", "mebi", "micro", "deca"]
 # physical values, as multiples of the coherent SI unit of the dimension (separated by far
 # more than any tolerance); 1024/1000 makes the SI-vs-IEC prefixes distinguishable
@@ -37,14 +46,16 @@ VALUES = [Decimal(1), Decimal("2.5"), Decimal(1024), Decimal(1000), Decimal("0.0
 
 def expressions(sp, key, thorough):
     """All (prefix, unit name) re-expressions for a pool."""
-    names = POOLS[key] if thorough else POOLS[key][:3]
+    names = POOLS[key] if thorough else POOLS[key][:(4 if key in ("A2", "V3", "iL") else 3)]
     pre = PREFIXES if thorough else PREFIXES[:5]
+    if key in ("A2", "V3", "iL"):
+        pre = [None, "kilo"] if thorough else [None]
     return [(p, n) for n in names for p in pre]
 
 
 def quantity(sp, expr, value, as_decimal=False):
     p, n = expr
-    spec = (p, ((n, 1),))
+    spec = (p, (_ne(n),))
     u = sp.unit(spec)
     size = sp.oracle.unit_size(u)
     m = value / size
@@ -175,6 +186,22 @@ def _chunk(args):
                    ("* unit", lambda: qa * ub, va * sb), ("/ unit", lambda: qa / ub, va / sb)]
             for n_ in (2, 3, -1, -2):
                 ops.append((f"**{n_}", (lambda n_=n_: qa**n_), va**n_))
+            # dimensionless operands that still carry a prefix (ratios of like quantities)
+            from measured.iec import Bit, Byte, Mebi
+            from measured.si import Kilo, Meter, Milli
+
+            one = w.m.One
+            for dn, du in (("kilo*one", Kilo * one), ("km/m", (Kilo * Meter) / Meter), ("byte/bit", Byte / Bit),
+                           ("Mibit/kbit", (Mebi * Bit) / (Kilo * Bit)), ("mm/m", (Milli * Meter) / Meter)):
+                dsz = sp.oracle.unit_size(du)
+                dq = 1.5 * du
+                dv = Decimal("1.5") * dsz
+                ops.append((f"* ({dn})", (lambda dq=dq: qa * dq), va * dv))
+                ops.append((f"({dn}) *", (lambda dq=dq: dq * qa), va * dv))
+                ops.append((f"/ ({dn})", (lambda dq=dq: qa / dq), va / dv))
+                ops.append((f"({dn}) /", (lambda dq=dq: dq / qa), dv / va))
+                ops.append((f"* unit ({dn})", (lambda du=du: qa * du), va * dsz))
+                ops.append((f"/ unit ({dn})", (lambda du=du: qa / du), va / dsz))
             ops.append(("*number", lambda: qa * 3, va * 3))
             ops.append(("number*", lambda: 3 * qa, va * 3))
             ops.append(("/number", lambda: qa / 4, va / 4))
@@ -243,7 +270,7 @@ def case_list(sp, thorough):
 def run(rep, tier):
     thorough = tier == "thorough"
     sp = c04.space()
-    missing = [n for names in POOLS.values() for n in names if n not in sp.by_name]
+    missing = [_ne(n)[0] for names in POOLS.values() for n in names if _ne(n)[0] not in sp.by_name]
     if missing:
         raise HarnessError(f"pool units not available: {missing}")
     cases = rotate(case_list(sp, thorough))
@@ -266,7 +293,7 @@ def run(rep, tier):
             "exact ties are prefix-only re-expressions with integer magnitudes",
             "cases": len(cases),
             "distinct_outcomes": dict(sorted(outcomes.items())),
-            "pools": {k: (v if thorough else v[:3]) for k, v in POOLS.items()},
+            "pools": {k: [str(x) for x in (v if thorough else v[:4])] for k, v in POOLS.items()},
             "prefixes": [p or "none" for p in (PREFIXES if thorough else PREFIXES[:5])],
             "samples": [str(c) for c in cases[:4]],
             "exhaustive": True,
@@ -282,7 +309,7 @@ def replay(obj, kind=None):
     case = obj["case"]
 
     def fix(x):
-        return tuple(x) if isinstance(x, list) else x
+        return tuple(fix(y) for y in x) if isinstance(x, list) else x
 
     case = tuple(fix(x) for x in case)
     r = _chunk((True, [case]))
